@@ -101,6 +101,51 @@ theorem C14_restored_at_zero (a : PfAcc) :
       · simp at h
     · simp at h
 
+/-- **the re-issued events depend on the remembered values only, not on the order in which they were remembered**: two scans that
+    remember the same value for every (channel, controller) and the same program for every channel re-issue the same list — channel
+    by channel, controllers in number order, then the program (the code walks a dense table; an iteration over a hash map here would
+    make the file depend on hash seeding, C08) -/
+theorem C14_reissue_order_canonical (a b : PfAcc) (hcc : ∀ k, a.cc.lookup k = b.cc.lookup k) (hv : ∀ k, a.voice.lookup k = b.voice.lookup k) :
+    restoreAll a = restoreAll b := by
+  unfold restoreAll restoreCh
+  simp only [hcc, hv]
+
+/-- within one channel the re-issued controllers come in controller-number order, each number once -/
+theorem C14_restored_order (a : PfAcc) (ch : Nat) :
+    (((List.range 128).filterMap (fun no =>
+      match a.cc.lookup (ch, no) with
+      | some v => if v < 0 then none else some (ccEvent ch no v)
+      | none => none)).map (·.v1)).Pairwise (· < ·) := by
+  have hr : (List.range 128).Pairwise (· < ·) := List.pairwise_lt_range
+  revert hr
+  generalize List.range 128 = l
+  intro hr
+  induction l with
+  | nil => simp
+  | cons x xs ih =>
+    obtain ⟨hx, hxs⟩ := List.pairwise_cons.mp hr
+    simp only [List.filterMap_cons]
+    split
+    · exact ih hxs
+    · rename_i ev hev
+      simp only [List.map_cons, List.pairwise_cons]
+      refine ⟨?_, ih hxs⟩
+      intro v hv
+      obtain ⟨e, he, rfl⟩ := List.mem_map.mp hv
+      obtain ⟨no, hno, hno2⟩ := List.mem_filterMap.mp he
+      have hxno := hx no hno
+      split at hev
+      · split at hev
+        · simp at hev
+        · simp only [Option.some.injEq] at hev; subst hev
+          split at hno2
+          · split at hno2
+            · simp at hno2
+            · simp only [Option.some.injEq] at hno2; subst hno2
+              simp [ccEvent]; omega
+          · simp at hno2
+      · simp at hev
+
 /-! ### which value is remembered: the latest in time on that channel -/
 
 theorem lookup_setKey {κ : Type} [BEq κ] [LawfulBEq κ] [DecidableEq κ] (l : List (κ × Int)) (k k' : κ) (v : Int) :
